@@ -96,6 +96,11 @@ def job(args):
     S = run_script(desc, repo=repo)
     results = [res_dict(r, S.label) for r in S.results]
     fallback = None
+    if S.error and S.error[0] == "crash" and desc.get("optional"):
+        # an optional unbounded script whose summaries meet a code shape they were not written for: skipped (reported), never an
+        # engine error -- the structure-bounded scripts and bounded stand-ins of the same clauses still decide the property
+        S.error = ("not-applicable", "the script's loop summaries do not fit the current code shape (internal error: " + str(S.error[1])[-160:].replace("\n", " ") + ")")
+        results = []
     if S.error and S.error[0] == "unsupported":
         # the current code uses a construct outside the VC generator's subset (typically a new loop over a symbolic-length array).
         # Never an alarm: an optional (unbounded) script is skipped; a script over a symbolic length falls back to the same
